@@ -3,6 +3,7 @@
 Monitor shape: brute-force calendar (explicit list of business days obtained by walking one day at a time) as reference model;
 registration histories (register / re-register / fetch by key) so that stale state left by an earlier registration shows;
 step budgets on the adjust/add loops."""
+import numpy as np
 import random, datetime
 from .. import core
 from ..core import HarnessError, StepBudget
@@ -103,7 +104,8 @@ def probe(ctx, cal, m, cfg, ns, stride, rng, sb, light=False):
                     continue
                 sb.reset()
                 mon['add_nth_bday'] += 1
-                got = cal.add(t, n, adj=a[0]) if a[0] else cal.add(t, n)
+                n_arg = np.int64(n) if (n + t.day) % 5 == 0 else n       # the count as a numpy integer now and then
+                got = cal.add(t, n_arg, adj=a[0]) if a[0] else cal.add(t, n_arg)
                 if got != exp:
                     ctx.fail('add_nth_bday', 'add(%s, %d, adj=%r) = %s, counting business days from adjust(t)=%s gives %s; cfg=%s' % (t, n, a[0], got, m.bd[base], exp, _brief(cfg)))
                     return False
